@@ -2,6 +2,8 @@ import PV.C05.Spec
 import PV.C05.Lemmas
 import PV.C05.Global
 import PV.C05.PlainGaps
+import PV.C05.LineStart
+import PV.C05.NlnPlace
 /-
   C05 — the token stream tiles the source: property theorems.
 
@@ -200,5 +202,41 @@ theorem gaps_are_trivia {cfg : Cfg} (hs : cfg.up.Sane) (hf : cfg.fullLexer = fal
 
 example : gapPlain false [32, 35, 32, 99, 10, 32, 32, 92, 13, 10, 9] = true := by decide
 example : gapPlain false [32, 120] = false := by decide
+
+/-! ### INDENT / DEDENT only at the start of a logical line -/
+
+/-- an `Indent` or `Dedent` token is preceded — comments and non-logical newlines aside — by a
+    `Newline`, another `Indent` / `Dedent`, or nothing -/
+theorem indent_dedent_at_line_start {cfg : Cfg} (hs : cfg.up.Sane) {mode : Mode} {k : Nat} {src : List Nat}
+    {out : LexOut} (h : lex cfg mode k src = some out) : DentsAtLineStart true (out.toks.map (·.tok)) := by
+  unfold lex at h
+  cases hr : lexRaw cfg k src with
+  | none => simp [hr] at h
+  | some o =>
+    simp [hr] at h; subst h
+    exact (softKwGo_dents _ _ _).mpr (lexRaw_dents hs hr)
+
+example : DentsAtLineStart true [.kw .If, .newline, .comment [35], .nonLogicalNewline, .indent, .name [120]] := by
+  simp [DentsAtLineStart, lineStartStep]
+example : ¬ DentsAtLineStart true [.name [120], .indent] := by simp [DentsAtLineStart, lineStartStep]
+
+/-! ### line breaks that are not NEWLINE tokens: only inside brackets or on blank lines -/
+
+/-- every `NonLogicalNewline` token (full lexer; by `PV.C10.full_lexer_filter` these are exactly the line
+    breaks that the default lexer leaves in gaps) stands at bracket depth > 0 or at the start of a
+    logical line, i.e. it ends a line that holds nothing but blanks and comments -/
+theorem nonlogical_newline_placement {cfg : Cfg} (hs : cfg.up.Sane) {mode : Mode} {k : Nat} {src : List Nat}
+    {out : LexOut} (h : lex cfg mode k src = some out) : NlnPlacement 0 true (out.toks.map (·.tok)) := by
+  unfold lex at h
+  cases hr : lexRaw cfg k src with
+  | none => simp [hr] at h
+  | some o =>
+    simp [hr] at h; subst h
+    exact (softKwGo_nln _ _ _ _).mpr (lexRaw_nln hs hr)
+
+example : NlnPlacement 0 true [.comment [35], .nonLogicalNewline, .name [120], .op .Lpar, .nonLogicalNewline] := by
+  simp [NlnPlacement, lineStartStep, depthStep]
+example : ¬ NlnPlacement 0 true [.name [120], .nonLogicalNewline] := by
+  simp [NlnPlacement, lineStartStep, depthStep]
 
 end PV.C05
